@@ -297,6 +297,21 @@ theorem build_statements_refine (P : List Obj) (π : List Nat → List Nat) (req
   rw [FrontIR.goodShape_eq generated_build_good, goodShape_eq generated_good]
   exact FrontIR.run_fixedIR P π req s
 
+/-- What the `drop_unused_inputs` option does to the main Graph: without it the compiled graph's
+    arguments are exactly the listed Vars, in the listed order (`with_arguments(*inputs.values())`,
+    no set involved); with it they are the discovered ones, `all − claimed`, in set order `π`; in
+    both cases no argument occurs twice and every argument some output depends on is among them. -/
+theorem arguments_of_main_graph (P : List Obj) (π : List Nat → List Nat) (outs : List Entry) (s : Store)
+    (b : FrontIR.Built) :
+    (∀ l, FrontIR.compile P π outs (some l) s = .ok b → b.args = l) ∧
+    (FrontIR.compile P π outs none s = .ok b → b.args = π (freeArgs P outs)) ∧
+    (∀ ra, FrontIR.compile P π outs ra s = .ok b →
+        hasDup b.args = false ∧ ∀ a, dependsOn P outs a = true → a ∈ b.args) :=
+  ⟨fun l h => (FrontIR.compile_requested P π outs l s b h).1,
+   fun h => (FrontIR.compile_discovered P π outs s b h).1,
+   fun ra h => ⟨(FrontIR.compile_args_sound P π outs ra s b h).1,
+     fun a ha => (FrontIR.compile_args_sound P π outs ra s b h).2 a (List.contains_iff_mem.mp ha)⟩⟩
+
 /-- Hence every clause of the property holds of the extracted statement list. -/
 theorem inputs_exact_stmts (P : List Obj) (π : List Nat → List Nat) (ins outs : List Entry)
     (s : Store) (m : Model)
